@@ -69,7 +69,7 @@ def fin(x):
 def run(ctx):
     from translate import alglists
     props = ["C20MT"] + (["C20Sobol"] if os.path.exists(os.path.join(LEAN, "NloptModel", "Props", "C20Sobol.lean")) else [])
-    ctx.lean_stage(props, translators=[alglists.run, tr_mtconsts, tr_sobol])
+    ctx.lean_stage(props)
     bdir = ctx.repo_stage()
     exe = None
     if bdir:
